@@ -242,6 +242,26 @@ def c02_ctone_big(ctx, case):
     c02_ctone(ctx, case)
 
 
+def enum_grid(tier):
+    for row, p, N, cplx, nfft in est.grid_points():
+        for fs in (1.0, 1000.0):
+            yield {"sub": "axis", "row": row, "x": est.grid_x(N, cplx, 11), "params": p, "nfft": nfft, "sampling": fs}
+        if cplx and row in TONE_ROWS and N <= 150:
+            q = dict(p)
+            if row in ("pmusic", "pev"):
+                q["NSIG"] = 1
+            for k in (3, -5, nfft // 2, 0):
+                yield {"sub": "ctone", "row": row, "n": N, "nfft": nfft, "k": k, "params": q, "amp": 2.0, "phase": 0.7, "noise": 1e-3,
+                       "seed": 91 + N + k, "sampling": 2.0, "store": "c128"}
+
+
+@sub("C02.grid", enum=enum_grid, exhaustive=True, shards_quick=4, shards_thorough=4,
+     doc="fixed grid, independent of the seed: every estimator row x N in {17, 40, 150, 301} x real/complex x NFFT in {N, N+3, 2N}: "
+         "the length / axis clause at two sampling rates, and (complex, N <= 150) the tone clause at bins 3, -5, NFFT/2, 0")
+def c02_grid(ctx, case):
+    (c02_axis if case["sub"] == "axis" else c02_ctone)(ctx, case)
+
+
 # --------------------------------------------------------------------------
 HALF = {"rectangular": 1, "hann": 2, "hamming": 2, "bartlett": 2, "blackman": 3, "kaiser": 3}
 
